@@ -6,7 +6,7 @@ from xml.sax.saxutils import escape, quoteattr
 from . import alpha
 from .world import World
 
-LET = {"a": "a", "A": "A", "b": "b", "e'": "é", "E'": "É", "sp": " "}
+LET = {"a": "a", "A": "A", "b": "b", "s": "s", "e'": "é", "E'": "É", "sp": " ", "ss'": "ß", "ls'": "ſ"}
 CARD = "urn:ietf:params:xml:ns:carddav"
 
 
